@@ -90,7 +90,7 @@ def check(index, ctx):
             ctx.require(bool(ov) and ov[0]["seq"] < first, "R3", f"{run.label}: overlap of task and shared parameters is tested first" if ov else "mtl_backward: overlap check",
                         "intersection of the (defaulted or given) collections computed before any differentiation",
                         "no intersection of the task parameters with the shared parameters is computed before the pipeline runs", entry.loc())
-        rej = [r for r in run.raising() if r.exc.exc_name == "ValueError" and any(e["kind"] == "decision" and "intersection" in e["test"] and e["outcome"] is True for e in r.events[-6:])
+        rej = [r for r in run.raising() if r.exc.exc_name == "ValueError" and _pipe.overlap_rejection(r)
                and not _pipe.evs(r, "autograd", "grad_write")]
         ctx.require(bool(rej), "R3", f"{run.label}: overlapping collections are rejected", "a path raises ValueError on a non-empty intersection before anything runs",
                     "no path rejects overlapping shared/task parameters with ValueError before the pipeline runs", entry.loc())
